@@ -19,6 +19,11 @@
 //        tag, every body returned by ReadTag is KEPT (the slice itself), those whose cyclic flag
 //        is non-zero are flipped in place by the caller right after the read; everything is
 //        compared only after the last call.  Observation as kinds 1/2.
+//   (7 hv ha ((type ts body gap capmode)...) (seg sizes...))  HISTORY with zero-copy bodies: all bodies
+//        lie back to back (separated by `gap` sentinel bytes) in ONE caller buffer and are handed
+//        to WriteTag as sub-slices of it: capmode 0 = plain pkt[a:b] (capacity reaches over all the
+//        following bodies), 1 = cap == len, k >= 2 = cap == len + (k-1).  The muxer may only READ
+//        caller memory: the whole buffer is compared with its snapshot after every call.
 // Observation kinds 1/2: (wire (write sizes...) demux) with demux = (0 (ver hv ha) (tags...) where err)
 // | (1 err) | (2); kind 3: one entry per call until the first error.
 package flv
@@ -444,6 +449,96 @@ func vC09Run(k *vKit, c vSx) (obs vSx, fo, fd string, nontrivial bool) {
 		k.count("kind", "5-large-body")
 		k.count("body-size", vSizeBucket(n))
 		return vL(vB(hdr), vB(th), vB(tr), vI(len(wire)), vLs(writes)), fo, fd, n >= 1<<16 || c.l[4].u64() >= 1<<24
+	case 7:
+		if len(c.l) != 5 {
+			return vL(vZ(-1)), "", "", false
+		}
+		hv, ha := c.l[1].i64() != 0, c.l[2].i64() != 0
+		var tags []vC09Tag // the ORIGINAL frames (private copies)
+		var offs, caps []int
+		var pkt []byte
+		for _, t := range c.l[3].l {
+			body := append([]byte{}, vC09Body(t.l[2])...)
+			tags = append(tags, vC09Tag{uint8(t.l[0].u64()), uint32(t.l[1].u64()), body})
+			offs = append(offs, len(pkt))
+			caps = append(caps, t.l[4].int())
+			pkt = append(pkt, body...)
+			for g := t.l[3].int(); g > 0; g-- {
+				pkt = append(pkt, 0xA5)
+			}
+			if t.l[1].u64() >= 1<<24 {
+				nontrivial = true
+			}
+		}
+		pkt = append(pkt, 0x5A, 0x5A, 0x5A, 0x5A, 0x5A, 0x5A, 0x5A, 0x5A) // spare room behind the last body
+		pkt = append([]byte{}, pkt...)                                   // exact-size backing array
+		snapshot := append([]byte{}, pkt...)
+		w := &vC09Writer{}
+		werr := func() (err error) {
+			defer func() {
+				if x := recover(); x != nil {
+					err = fmt.Errorf("muxer panicked: %v", x)
+				}
+			}()
+			m, _ := NewMuxer(w)
+			if err = m.WriteHeader(hv, ha); err != nil {
+				return
+			}
+			for i, t := range tags {
+				a, b := offs[i], offs[i]+len(t.body)
+				var sl []byte
+				switch {
+				case caps[i] <= 0:
+					sl = pkt[a:b] // capacity up to the end of the packet
+				default:
+					hi := b + caps[i] - 1
+					if hi > len(pkt) {
+						hi = len(pkt)
+					}
+					sl = pkt[a:b:hi]
+				}
+				if err = m.WriteTag(TagType(t.typ), t.ts, sl); err != nil {
+					return
+				}
+				if !bytes.Equal(pkt, snapshot) {
+					d := 0
+					for d < len(pkt) && pkt[d] == snapshot[d] {
+						d++
+					}
+					bad("caller-memory", fmt.Sprintf("WriteTag call %d (body pkt[%d:%d], capacity %d) modified the caller's packet buffer at offset %d", i, a, b, cap(sl), d))
+					copy(pkt, snapshot) // keep judging the following calls on their own
+				}
+			}
+			return m.Close()
+		}()
+		if werr != nil {
+			bad("mux-error", werr.Error())
+		}
+		wire := append([]byte{}, w.buf.Bytes()...)
+		var writes []vSx
+		for _, n := range w.writes {
+			writes = append(writes, vI(n))
+		}
+		if ref := vC09Reference(hv, ha, tags); !bytes.Equal(wire, ref) {
+			bad("layout", fmt.Sprintf("zero-copy history of %d WriteTag calls: the file (%d bytes) differs from the FLV v1 reference layout of the original frames (%d bytes)", len(tags), len(wire), len(ref)))
+		}
+		res := vC09Demux(vC09MkReader(wire, vC09Ints(c.l[4]), -1, -1))
+		switch {
+		case res.panicked:
+			bad("no-panic", "demuxer panicked")
+		case res.hdrErr != 0:
+			bad("roundtrip", fmt.Sprintf("header rejected with error %d", res.hdrErr))
+		case res.ver != 1 || res.hv != hv || res.ha != ha:
+			bad("roundtrip", fmt.Sprintf("header read back as version %d video %v audio %v", res.ver, res.hv, res.ha))
+		default:
+			if d := vC09SameTags(res.tags, tags); d != "" {
+				bad("history-roundtrip", "read back differs from the original frames: "+d)
+			} else if res.where != 0 || res.end != 1 {
+				bad("roundtrip", fmt.Sprintf("read loop ended with error %d in call %d", res.end, res.where))
+			}
+		}
+		k.count("kind", "7-zero-copy-history")
+		return vL(vB(wire), vLs(writes), res.obs()), fo, fd, nontrivial || len(tags) >= 2
 	case 6:
 		if len(c.l) != 6 {
 			return vL(vZ(-1)), "", "", false
@@ -476,11 +571,16 @@ func vC09Run(k *vKit, c vSx) (obs vSx, fo, fd string, nontrivial bool) {
 			if err = m.WriteHeader(hv, ha); err != nil {
 				return
 			}
-			buf := make([]byte, maxLen)
+			backing := make([]byte, maxLen+8) // 8 spare bytes behind the longest body
+			buf := backing[:maxLen]
 			for i, t := range tags {
 				n := copy(buf, t.body)
+				before := append([]byte{}, backing...)
 				if err = m.WriteTag(TagType(t.typ), t.ts, buf[:n]); err != nil {
 					return
+				}
+				if !bytes.Equal(before, backing) {
+					bad("caller-memory", fmt.Sprintf("WriteTag call %d modified the caller's buffer (body %d bytes, capacity %d)", i, n, cap(buf[:n])))
 				}
 				if muts[i] {
 					for j := 0; j < n; j++ {
@@ -765,10 +865,36 @@ func vC09GenHistory(r *vRng) vSx {
 	return vL(vZ(6), vI(r.intn(2)), vI(r.intn(2)), vLs(ops), vLs(vC09GenSizes(r)), vLs(flags))
 }
 
+// zero-copy history: bodies are consecutive regions of one packet buffer
+func vC09GenZeroCopy(r *vRng) vSx {
+	n := r.rng(2, 6)
+	var ops []vSx
+	mode := r.intn(4)
+	for i := 0; i < n; i++ {
+		size := r.pickInt(0, 1, 3, 4, 5, 8, 40, r.intn(300))
+		gap := r.pickInt(0, 0, 0, 1, 3, 4, 8)
+		var cp int
+		switch mode {
+		case 0:
+			cp = 0 // plain sub-slices: capacity reaches over the following bodies
+		case 1:
+			cp = 1 // cap == len
+		default:
+			cp = r.pickInt(0, 1, 2, 3, 4, 5, 6, 7, 8, 9) // cap == len, len+1 .. len+8
+		}
+		ts := r.pickU64(uint64(i), 1<<24+uint64(i), 1<<32-1, uint64(r.intn(1<<20)))
+		ops = append(ops, vL(vI(r.pickInt(8, 9, 18)), vU(ts), vB(r.bytes(size)), vI(gap), vI(cp)))
+	}
+	return vL(vZ(7), vI(r.intn(2)), vI(r.intn(2)), vLs(ops), vLs(vC09GenSizes(r)))
+}
+
 func vC09Gen(r *vRng, k *vKit) vSx {
-	kind := r.pickInt(1, 1, 1, 2, 2, 3, 6, 6)
+	kind := r.pickInt(1, 1, 1, 2, 2, 3, 6, 6, 7, 7)
 	if kind == 6 {
 		return vC09GenHistory(r)
+	}
+	if kind == 7 {
+		return vC09GenZeroCopy(r)
 	}
 	if kind != 3 {
 		tags := vC09GenTags(r, k)
